@@ -76,6 +76,9 @@ fn main() {
             // violation of the same property is still found)
             let known: Vec<String> = std::env::var("VK_KNOWN").unwrap_or_default().split('|').filter(|s| !s.is_empty()).map(|s| s.to_string()).collect();
             let mut known_hits: u64 = 0;
+            // marker prefixes that do not concern the property being checked (a harness may serve several properties)
+            let ignore: Vec<String> = std::env::var("VK_IGNORE").unwrap_or_default().split('|').filter(|s| !s.is_empty()).map(|s| s.to_string()).collect();
+            let only: Vec<String> = std::env::var("VK_ONLY").unwrap_or_default().split('|').filter(|s| !s.is_empty()).map(|s| s.to_string()).collect();
             let mut check = |v: &[u64]| -> bool {
                 if !(h.pre)(v) {
                     return false;
@@ -85,6 +88,14 @@ fn main() {
                     first = Some(v.iter().map(|x| x.to_string()).collect::<Vec<_>>().join(" "));
                 }
                 if let Err(msg) = outcome(&h, v) {
+                    // longest matching prefix decides
+                    let ig = ignore.iter().filter(|k| msg.starts_with(k.as_str())).map(|k| k.len()).max();
+                    let on = only.iter().filter(|k| msg.starts_with(k.as_str())).map(|k| k.len()).max();
+                    if let Some(i) = ig {
+                        if on.map_or(true, |o| o < i) {
+                            return false;
+                        }
+                    }
                     if known.iter().any(|k| msg.starts_with(k.as_str())) {
                         if known_hits == 0 {
                             println!("KNOWNHIT {} {} :: {}", h.name, v.iter().map(|x| x.to_string()).collect::<Vec<_>>().join(" "), msg);
